@@ -247,6 +247,10 @@ struct World {
     ctxs: Vec<(I18nContext<Locale>, Owner)>,
     accs: Vec<Box<dyn Fn() -> String>>,
     set_cookies: Arc<Mutex<Vec<String>>>,
+    /// views built by <I18nSubContextProvider>: they own the reactive owner of their sub-context
+    keep: Vec<AnyView>,
+    /// owners in which sub-contexts were created (an owner that is dropped disposes what was created in it)
+    keep_owners: Vec<Owner>,
 }
 
 fn render<V: IntoView>(v: V) -> String {
@@ -296,8 +300,12 @@ impl World {
             opts = opts.cookie_name("my_locale");
         }
         let child = owner.child();
-        let ctx = child.with(|| init_i18n_context_with_options::<Locale>(opts));
-        World { owner, views: vec![View::Root(ctx)], ctx_of_view: vec![0], ctxs: vec![(ctx, child)], accs: vec![], set_cookies }
+        let ctx = child.with(|| {
+            let ctx = init_i18n_context_with_options::<Locale>(opts);
+            provide_context(ctx);      // the owner recorded for a context is one in which `use_i18n()` finds it
+            ctx
+        });
+        World { owner, views: vec![View::Root(ctx)], ctx_of_view: vec![0], ctxs: vec![(ctx, child)], accs: vec![], set_cookies, keep: vec![], keep_owners: vec![] }
     }
 
     fn resolve(op: &Value) -> String {
@@ -339,20 +347,55 @@ impl World {
             }
         };
         let parent_ctx = if parent == 0 { None } else { Some(self.ctxs[parent - 1].0) };
+        let cookie_name: Option<std::borrow::Cow<'static, str>> = if cookie_on { Some("sub_locale".into()) } else { None };
+        if op["via"].as_str() == Some("provider") {
+            // the documented way: <I18nSubContextProvider> rendered where the parent is the current context.  The children record
+            // the context they see and their owner.
+            let (pctx, powner) = (self.ctxs[parent - 1].0, self.ctxs[parent - 1].1.clone());
+            let cell: Arc<Mutex<Option<(I18nContext<Locale>, Owner)>>> = Arc::new(Mutex::new(None));
+            let c2 = cell.clone();
+            let view = powner.with(|| {
+                provide_context(pctx);
+                leptos_i18n::context::i18n_sub_context_provider_inner::<Locale, _>(
+                    leptos::children::ToChildren::to_children(move || {
+                        *c2.lock().unwrap() = Some((use_i18n(), Owner::current().expect("owner")));
+                        ""
+                    }),
+                    initial,
+                    cookie_name,
+                    Some(cookie_opts),
+                    Some(locales_opts),
+                )
+                .into_any()
+            });
+            self.keep.push(view);
+            let (ctx, own) = cell.lock().unwrap().take().expect("the provider ran its children");
+            self.ctxs.push((ctx, own));
+            self.views.push(View::Root(ctx));
+            self.ctx_of_view.push(self.ctxs.len() - 1);
+            return;
+        }
         let ctx = base.with(|| {
             if let Some(p) = parent_ctx {
                 provide_context(p);
             }
-            init_i18n_subcontext_with_options::<Locale>(
-                initial,
-                if cookie_on { Some("sub_locale".into()) } else { None },
-                Some(cookie_opts),
-                Some(locales_opts),
-            )
+            init_i18n_subcontext_with_options::<Locale>(initial, cookie_name, Some(cookie_opts), Some(locales_opts))
         });
-        self.ctxs.push((ctx, base));
+        // (the sub-context is provided in an owner of its own below the one it was created in)
+        let own = base.child();
+        own.with(|| provide_context(ctx));
+        self.keep_owners.push(base);
+        self.ctxs.push((ctx, own));
         self.views.push(View::Root(ctx));
         self.ctx_of_view.push(self.ctxs.len() - 1);
+    }
+
+    /// `use_i18n()` where context c is the current one: a new handle on c
+    fn lookup(&mut self, c: usize) {
+        let own = self.ctxs[c].1.clone();
+        let found = own.with(use_i18n);
+        self.views.push(View::Root(found));
+        self.ctx_of_view.push(c);
     }
 
     fn scope(&mut self, v: usize) {
@@ -520,6 +563,7 @@ fn do_ctx(c: &Value, w: &mut Out) {
                     wd.views[op["view"].as_u64().unwrap() as usize - 1].set(loc(op["locale"].as_str().unwrap()), op["tracked"].as_bool().unwrap());
                 }
                 "scope" => world.as_mut().unwrap().scope(op["view"].as_u64().unwrap() as usize - 1),
+                "lookup" => world.as_mut().unwrap().lookup(op["ctx"].as_u64().unwrap() as usize - 1),
                 "make_accessor" => world.as_mut().unwrap().make_accessor(
                     op["view"].as_u64().unwrap() as usize - 1,
                     op["key"].as_str().unwrap(),
